@@ -95,6 +95,8 @@ def check_sem(prop, tier, replay, selftest, mc=_sem_mc):
             continue
         if gl not in recs:
             recs[gl] = json.loads(tr["lines"][gl - 1])
+        if recs[gl].get("kind") != "adf":
+            continue
         rec = recs[gl]
         if t[0] == "INFO":
             ncalls += len(rec["calls"]) + sum(t["runs"] for t in rec.get("trees", []))
@@ -110,9 +112,14 @@ def check_sem(prop, tier, replay, selftest, mc=_sem_mc):
     res.evaluations = ncalls
     res.distinct = nontriv
     res.rule = SEM_RULE
+    for line in tr["lines"][-3:]:
+        if '"kind":"stat"' in line:
+            st = json.loads(line)
+            res.extra["differential_prefilter"] = {"adfs_run_through_both_counting_searches_and_plain_stable": st["prefilter_adfs"], "disagreements_recorded_and_judged_by_TLC": st["flagged"],
+                                                   "note": "agreement is not evidence and is not counted as validated; the filter only widens the search for inputs worth recording"}
     res.exhaustive = False
     res.extra["exhaustive_subspace"] = "all ADFs with 1 and 2 statements (260) are enumerated completely on both sides"
-    res.samples = [_trim(json.loads(l)) for l in tr["lines"][300:303]] or [_trim(json.loads(tr["lines"][0]))]
+    res.samples = [_trim(json.loads(l)) for l in tr["lines"][300:303] if '"kind":"adf"' in l] or [_trim(json.loads(tr["lines"][0]))]
     res.assumptions = ["TLC evaluates AdfSem correctly", "the harness logs the answers the library returned (binding self-test: --selftest)",
                        "a hang is detected by a 20 s wall-clock budget per call (heuristic-call budget 4*3^n for custom heuristics)"]
     return res.finish()
